@@ -44,10 +44,26 @@ Definition gfinish (bomb : option Z) (s : it) (f : dfin) : res (option Z) * list
     (match r with MRet v => unlift_val v | MPanic => Panicked | MUB => UB end, e)
   end.
 
+(* teardown of the builder / consumer types through the programs regenerated from
+   src/internal.rs (their Drop impls); the array's own drop glue is not crate code *)
+Definition gteardown (bomb : option Z) (a : list Z) (rest : list Z) : option (list Z) :=
+  let fin (o : out val) :=
+      let '(r, _, _, e) := o in
+      Some (List.app (match r with MRet _ => [5] | MPanic => [6] | MUB => [7] end) (zlen (drops_of e) :: drops_of e)) in
+  match rest with
+  | [24; p] => fin (call builder_table DEPTH "drop" [] (with_pos a (znat p)) bomb)
+  | [26; p] => fin (call ibuilder_table DEPTH "drop" [] (with_pos a (znat p)) bomb)
+  | [25; p] => fin (call consumer_table DEPTH "drop" [] (with_pos a (znat p)) bomb)
+  | _ => teardown bomb a rest
+  end.
+
 (* same encoding as CorrC05.run_c05 *)
 Definition run_c105 (case : list Z) : list Z :=
   match case with
   | n :: b :: rest =>
+    match gteardown (if b <? 0 then None else Some b) (map Z.of_nat (seq 0 (znat n))) rest with
+    | Some out => out
+    | None =>
     let a := map Z.of_nat (seq 0 (znat n)) in
     let bomb := if b <? 0 then None else Some b in
     let '(ops, fin) := decode_dops (length rest) rest in
@@ -59,6 +75,7 @@ Definition run_c105 (case : list Z) : list Z :=
      | FDrop, Ret _ => [5]
      | _, _ => enc_res r
      end) ++ (zlen (drops_of e) :: drops_of e)
+    end
   | _ => []
   end.
 
